@@ -141,6 +141,9 @@ class _LogCount(logging.Handler):
         self.n += 1
 
 
+_bounded = vnet.bounded
+
+
 class _Registry(dict):
     """A device registry used as the callback: a dict subclass (empty, hence falsy, when the bridge is built) that is callable."""
 
@@ -295,9 +298,9 @@ class BridgeRun:
                 self.log(ev="Cycle")
                 try:
                     if do == "start":
-                        await bridge.start()
+                        await _bounded(bridge.start())
                     else:
-                        await bridge.__aenter__()
+                        await _bounded(bridge.__aenter__())
                     self.log(ev="Start", br=br, how=do, ok=True, exc="")
                 except Exception as x:  # noqa: BLE001
                     self.log(ev="Start", br=br, how=do, ok=False, exc=type(x).__name__)
@@ -323,12 +326,12 @@ class BridgeRun:
             elif do in ("stop", "leave", "leave-exc"):
                 try:
                     if do == "stop":
-                        await bridge.stop()
+                        await _bounded(bridge.stop())
                     elif do == "leave":
-                        await bridge.__aexit__(None, None, None)
+                        await _bounded(bridge.__aexit__(None, None, None))
                     else:
                         e = ValueError("body failed")
-                        await bridge.__aexit__(ValueError, e, None)
+                        await _bounded(bridge.__aexit__(ValueError, e, None))
                     self.log(ev="Stop", br=br, how=do, raised=False)
                 except Exception as x:  # noqa: BLE001
                     self.log(ev="Stop", br=br, how=do, raised=True, exc=type(x).__name__)
@@ -380,7 +383,11 @@ class BridgeRun:
                 await vnet.settle(st.get("yields", 3))
                 stopped = False
                 if st.get("then") == "stop":
-                    await bridge.stop()
+                    stop_exc = ""
+                    try:
+                        await _bounded(bridge.stop())
+                    except Exception as x:  # noqa: BLE001 - judged by the specification (stop() is safe in every state)
+                        stop_exc = type(x).__name__
                     stopped = True
                     self.after_stop = True
                 await vnet.settle(10)
@@ -395,7 +402,7 @@ class BridgeRun:
                     if not x["after_stop"]:
                         self.ev.append(x)
                 if stopped:
-                    self.log(ev="Stop", how="stop", raised=False)
+                    self.log(ev="Stop", how="stop", raised=bool(stop_exc), exc=stop_exc)
                 for x in self.strays:
                     if x["after_stop"]:
                         self.ev.append(x)
@@ -419,7 +426,7 @@ class BridgeRun:
                 if self.stop_task is not None:      # the callback stopped the bridge: the stop ran (and the loop cycled) meanwhile
                     task, self.stop_task = self.stop_task, None
                     try:
-                        await task
+                        await _bounded(task)
                         self.log(ev="Stop", br=br, how="stop", raised=False)
                     except Exception as x:  # noqa: BLE001
                         self.log(ev="Stop", br=br, how="stop", raised=True, exc=type(x).__name__)
